@@ -214,7 +214,7 @@ func Gen(caseID, tier string) (json.RawMessage, error) {
 		tp.Settings.RequireAddr = true
 	}
 	if r.Chance(1, 3) {
-		tp.Settings.ClientAddr = r.Pick("match", "match", "other")
+		tp.Settings.ClientAddr = r.Pick("match", "match", "other", "match6")
 	}
 	if r.Chance(1, 4) {
 		tp.Settings.KtPrinc = r.Pick("HTTP/host.sim.test", "HTTP/other.sim.test")
@@ -242,6 +242,18 @@ func Gen(caseID, tier string) (json.RawMessage, error) {
 	perm := r.Perm(len(etypes))
 	for i := 0; i < net; i++ {
 		tp.Keytab.Etypes = append(tp.Keytab.Etypes, etypes[perm[i]])
+	}
+	if r.Chance(1, 40) {
+		// history shape: one client presents 65-100 valid, distinct requests and then the first one
+		// again: however many others the service has seen since, that is still a replay
+		et := tp.Keytab.Etypes[0]
+		mk := world.ReqSpec{Client: "alice", Svc: tp.Keytab.Services[0], Realm: tp.Keytab.Realms[0], Kvno: tp.Keytab.Kvnos[len(tp.Keytab.Kvnos)-1], Etype: et, KvnoField: true, StartTime: true, LifeS: 36000}
+		n := r.Range(65, 100)
+		for i := 0; i < n; i++ {
+			tp.Pres = append(tp.Pres, Pres{Spec: mk, ReplayOf: -1, ThinkNs: int64(r.Range(1, 2000)) * 1000})
+		}
+		tp.Pres = append(tp.Pres, Pres{Spec: mk, ReplayOf: r.Intn(3), ThinkNs: int64(r.Range(1, 2000)) * 1000})
+		return core.MustJSON(tp), nil
 	}
 	if r.Chance(1, 12) && tp.Settings.SkewS != 1 {
 		// history shape: an old but still acceptable authenticator A, a fresh B of the same client, a
@@ -285,7 +297,7 @@ func Gen(caseID, tier string) (json.RawMessage, error) {
 			p.Spec.NameType = int32(r.PickInt(2, 10))
 		}
 		if r.Chance(1, 3) {
-			p.Spec.Addrs = r.Pick("match", "other", "both")
+			p.Spec.Addrs = r.Pick("match", "other", "both", "match6", "other4-match6")
 		}
 		if r.Chance(1, 4) {
 			p.Spec.PAC = r.Pick("valid", "valid", "flipped", "wrongkey", "sigflipped", "truncated", "nosig", "noinfo")
@@ -306,6 +318,10 @@ func Gen(caseID, tier string) (json.RawMessage, error) {
 		timeUsed := false
 		for len(p.Spec.Defects) < nd {
 			c := catalogue[r.Intn(len(catalogue))]
+			if tp.Settings.KtPrinc != "" && r.Chance(1, 3) {
+				// with a keytab principal override the key-selection labels matter in other ways
+				c = catalogue[r.Intn(5)] // wrong-key, wrong-kvno-label, wrong-etype-label, wrong-realm-label, wrong-sname-label
+			}
 			isTime := len(c.args) > 0 && strings.HasPrefix(c.kind, "t-")
 			if isTime && timeUsed {
 				continue
